@@ -3,6 +3,7 @@ from __future__ import annotations
 
 import copy
 import json
+import warnings
 from typing import Any, List, Tuple
 
 from hypothesis import strategies as st
@@ -140,7 +141,11 @@ def body(sub, root: tuple, tv: TV, extra=None) -> List[Tuple[str, str, str, str]
         return []
     ctx = where[0]
     try:
-        obj2 = sub.conv.structure(jp, T)
+        # a process that turns warnings into errors (python -W error, pytest filterwarnings=error) is an ordinary way to run
+        # a server: "never makes structuring fail" includes not raising through the warnings machinery
+        with warnings.catch_warnings():
+            warnings.simplefilter("error")
+            obj2 = sub.conv.structure(jp, T)
     except Exception as e:
         return [(f"raises:{exc_sig(e)}", exc_frame(e), f"extra-key@{ctx}", f"root {rname}: {exc_detail(e)}; extras at {where}")]
     try:
